@@ -808,6 +808,20 @@ void TasgridWrapper::setHierarchy(){
                 (std::string("grid is set for ") + std::to_string(grid.getNumOutputs()) + " outputs, but "
                  + valsfilename + " specifies " + std::to_string(vals.getStride())).c_str());
     if (not pass_flag) return;
+    if (grid.isFourier()){
+        // the matrix file interlaces real and imaginary parts, the API takes all real parts followed by all imaginary parts
+        size_t num_points = (size_t) grid.getNumPoints(), num_outs = (size_t) grid.getNumOutputs();
+        std::vector<double> coeff(2 * num_points * num_outs);
+        for(size_t p=0; p<num_points; p++){
+            double const *c = vals.getStrip((int) p);
+            for(size_t j=0; j<num_outs; j++){
+                coeff[p * num_outs + j] = c[2*j];
+                coeff[(num_points + p) * num_outs + j] = c[2*j + 1];
+            }
+        }
+        grid.setHierarchicalCoefficients(coeff);
+        return;
+    }
     grid.setHierarchicalCoefficients(vals.release());
 }
 
